@@ -306,6 +306,38 @@ func init() {
 				x.relFail("mutated", "all", &Case{Fn: "Index", S: s0, T: t0}, "an argument was modified")
 			}
 		}
+		// the views: every result of the Trim and Cut families must alias the first argument at the positions the
+		// result implies (compared with the Go reference's offsets; an empty result must be the empty slice at that
+		// offset — aliasHook, obs.go), on every job and on edge shapes: the match at the very end, at the very
+		// start, the whole argument, an empty second argument, an empty first argument
+		viewFns := []string{"TrimPrefix", "TrimSuffix", "CutPrefix", "CutSuffix", "Cut"}
+		nViews := 0
+		checkViews := func(sv, tv []byte) {
+			for _, fn := range viewFns {
+				c := &Case{Fn: fn, S: sv, T: tv}
+				a, b := observe(c)
+				want := ref(c)
+				nViews++
+				if a != want || b != want {
+					x.relFail("copy", fn, c, fmt.Sprintf("result views strcase=%s bytcase=%s, the positions implied by the result are %s", a, b, want))
+				}
+			}
+		}
+		for i := range jobs {
+			checkViews(jobs[i].s, jobs[i].t)
+		}
+		for _, w := range [][2]string{{"k", "K"}, {"K", "k"}, {"ſ", "S"}, {"ß", "ẞ"}, {"x", "X"}, {"=", "="}, {"\xff", "\xfe"}, {"世", "世"}, {"ab", "AB"}} {
+			for _, pad := range []string{"", "key", "0123456789abcdefghij"} {
+				big := make([]byte, 0, 64) // spare capacity behind the argument
+				for _, sv := range []string{pad + w[0], w[0] + pad, w[0], pad + w[0] + pad, pad, ""} {
+					sb := append(big[:0:0], sv...)
+					sb = append(make([]byte, 0, len(sv)+17), sb...)
+					checkViews(sb, []byte(w[1]))
+					checkViews(sb, nil)
+				}
+			}
+		}
+		x.note("views of the Trim/Cut families checked against the implied positions on %d calls", nViews)
 		// concurrent: G goroutines, each walks all jobs from a different offset
 		G := 64
 		var wg sync.WaitGroup
